@@ -23,6 +23,7 @@
 EXTENDS Integers, Sequences, FiniteSets, TLC
 
 CONSTANTS NKeys, PageSize, LeafElem, BranchElem,
+          BigKeys, BigElem,   \* keys whose pairs carry a large value (their leaf element has BigElem bytes: overflow runs)
           Pinned      \* subset of {"F1", "F2", "F6", "F13", "F14"}: repairs switched OFF (the pinned code; vacuity guards)
 
 HEADER == 40                          \* size_of::<Page>() (the ptr field included)
@@ -48,7 +49,12 @@ IsSorted(q) == \A i \in 1..Len(q) - 1 : q[i] < q[i + 1]
 
 Panic(s, why) == IF s.panic = "" THEN [s EXCEPT !.panic = why] ELSE s
 
-Size(n) == HEADER + Len(n.keys) * (IF n.leaf THEN LeafElem ELSE BranchElem)
+\* a pair under a key of BigKeys is large; the entry of a nested bucket (value >= 10) has the ordinary size
+ElemSize(n, i) == IF ~n.leaf THEN BranchElem
+                  ELSE IF n.keys[i] \in BigKeys /\ n.kids[i] < 10 THEN BigElem ELSE LeafElem
+RECURSIVE SumSizes(_, _)
+SumSizes(n, i) == IF i = 0 THEN 0 ELSE ElemSize(n, i) + SumSizes(n, i - 1)
+Size(n) == HEADER + SumSizes(n, Len(n.keys))
 NeedsMerging(n) == Len(n.keys) < MINKEYS \/ Size(n) < PageSize \div 4
 
 \* binary_search_by_key on a sorted sequence: number of keys smaller than k
@@ -354,21 +360,21 @@ InsertBranch(s, par, okey, key, page) ==
 
 \* Node::split : the 0-based split indexes
 RECURSIVE SplitIdx(_, _, _, _, _, _)
-SplitIdx(i, len, E, cur, count, acc) ==
+SplitIdx(i, len, n, cur, count, acc) ==
     IF i > len - 3 THEN acc
     ELSE LET c == count + 1
+             E == ElemSize(n, i + 1)
              ns == cur + E
          IN  IF c >= MINKEYS /\ ns > Threshold
-             THEN SplitIdx(i + 1, len, E, HEADER + E, 0, Append(acc, i + 1))
-             ELSE SplitIdx(i + 1, len, E, ns, c, acc)
+             THEN SplitIdx(i + 1, len, n, HEADER + E, 0, Append(acc, i + 1))
+             ELSE SplitIdx(i + 1, len, n, ns, c, acc)
 
 \* returns the state (the node keeps the first chunk, new nodes appended) and the new node ids
 Split(s, id) ==
     LET n == s.nodes[id]
         len == Len(n.keys)
-        E == IF n.leaf THEN LeafElem ELSE BranchElem
         idx == IF len <= MINKEYS * 2 \/ Size(n) < PageSize THEN <<>>
-               ELSE SplitIdx(0, len, E, HEADER, 0, <<>>)
+               ELSE SplitIdx(0, len, n, HEADER, 0, <<>>)
         cuts == idx \o <<len>>                   \* chunk j (j >= 1) = elements idx[j]+1 .. cuts[j+1]
         chunk(j) == [pid |-> 0, leaf |-> n.leaf,
                      keys |-> SubSeq(n.keys, cuts[j] + 1, cuts[j + 1]),
